@@ -112,6 +112,8 @@ class Evaluator:
         self.raised_facts = {}
         self._modconst_cache = {}
         self._stack = []
+        self.reads = []
+        self.heap = {}         # stream id -> (data term, position term)
 
     # ------------------------------------------------------------------ public API
     def call_function(self, qual, args=(), kwargs=None, facts=None, self_term=None):
@@ -126,6 +128,26 @@ class Evaluator:
     def construct(self, clsqual, args=(), kwargs=None, facts=None):
         ci = self.p.get_class(clsqual)
         return self._construct(ci, list(args), dict(kwargs or {}), facts or Facts(), 0)
+
+    def new_stream(self, data, pos=None):
+        sid = len(self.heap) + 1
+        self.heap[sid] = (data, pos if pos is not None else T.const(0))
+        return T.raw_op('STREAM', T.const(sid))
+
+    def stream_state(self, st):
+        return self.heap[st[2][1]]
+
+    def eval_fragment(self, qual, stmts, env, facts=None):
+        """Evaluate a statement list taken from function `qual` in the given environment.
+        Returns (outcome, env, facts)."""
+        fi = self.p.get_function(qual)
+        fr = Frame(fi, dict(env), facts or Facts(), fi.module, fi.cls, 0)
+        self._stack.append(qual)
+        try:
+            res = self.block(stmts, fr)
+        finally:
+            self._stack.pop()
+        return res, fr.env, fr.facts
 
     def module_const(self, modname, name):
         mi = self.p.get_module(modname)
@@ -320,7 +342,7 @@ class Evaluator:
         return T.raise_(name)
 
     def st_Assert(self, st, fr):
-        c = T.truth(self.expr(st.test, fr))
+        c = self.decide(T.truth(self.expr(st.test, fr)), fr)
         if c == T.TRUE:
             return FALL
         if c == T.FALSE:
@@ -384,7 +406,7 @@ class Evaluator:
             self.assign(target.value, T.opaque('starred target'), fr)
 
     def st_If(self, st, fr):
-        c = T.truth(self.expr(st.test, fr))
+        c = self.decide(T.truth(self.expr(st.test, fr)), fr)
         if T.tag(c) == 'raise':
             return c
         if c == T.TRUE:
@@ -392,23 +414,25 @@ class Evaluator:
         if c == T.FALSE:
             return self.block(st.orelse, fr)
         env0, facts0 = dict(fr.env), fr.facts
+        heap0 = dict(self.heap)
         fr.facts = facts0.add(c)
         r1 = self.block(st.body, fr)
-        env1, facts1 = fr.env, fr.facts
-        fr.env, fr.facts = dict(env0), facts0.add(T.not_(c))
+        env1, facts1, heap1 = fr.env, fr.facts, self.heap
+        fr.env, fr.facts, self.heap = dict(env0), facts0.add(T.not_(c)), dict(heap0)
         r2 = self.block(st.orelse, fr)
-        env2, facts2 = fr.env, fr.facts
+        env2, facts2, heap2 = fr.env, fr.facts, self.heap
         f1 = r1 is FALL or _has_fall(r1)
         f2 = r2 is FALL or _has_fall(r2)
         if f1 and f2:
             fr.env = _merge_env(c, env1, env2)
             fr.facts = facts1.meet(facts2)
+            self.heap = _merge_heap(c, heap1, heap2)
         elif f1:
-            fr.env, fr.facts = env1, facts1
+            fr.env, fr.facts, self.heap = env1, facts1, heap1
         elif f2:
-            fr.env, fr.facts = env2, facts2
+            fr.env, fr.facts, self.heap = env2, facts2, heap2
         else:
-            fr.env, fr.facts = env1, facts1.meet(facts2)
+            fr.env, fr.facts, self.heap = env1, facts1.meet(facts2), heap1
         if r1 is FALL and r2 is FALL:
             return FALL
         return T.phi(c, r1, r2)
@@ -582,6 +606,59 @@ class Evaluator:
             if isinstance(n, (ast.Attribute, ast.Subscript)) and isinstance(n.ctx, ast.Store):
                 self.effects.append(('store-in-loop', fr.fn.qual if fr.fn else None, n.lineno, ast.unparse(n)))
 
+    # ------------------------------------------------------------------ interval decisions from must-facts
+    def decide(self, c, fr):
+        """Fold a boolean term using the integer bounds that the current must-facts give (interval domain)."""
+        if T.is_const(c) or not fr.facts.items:
+            return c
+        if c in fr.facts:
+            return T.TRUE
+        if T.not_(c) in fr.facts:
+            return T.FALSE
+        k = T.tag(c)
+        if T.is_op(c, 'NOT'):
+            r = self.decide(c[2], fr)
+            return T.not_(r) if T.is_const(r) else c
+        if T.is_op(c, 'AND'):
+            out = T.TRUE
+            for x in c[2:]:
+                out = T.and_(out, self.decide(x, fr))
+            return out
+        if T.is_op(c, 'OR'):
+            out = T.FALSE
+            for x in c[2:]:
+                out = T.or_(out, self.decide(x, fr))
+            return out
+        if T.is_op(c, 'LT') or T.is_op(c, 'EQ'):
+            a, b = c[2], c[3]
+            if _is_int_const(a) and not _is_int_const(b):
+                lo, hi = bounds_of(b, fr.facts)
+                v = a[1]
+                if T.is_op(c, 'LT'):       # v < b
+                    if lo is not None and v < lo:
+                        return T.TRUE
+                    if hi is not None and v >= hi:
+                        return T.FALSE
+                else:
+                    if (lo is not None and v < lo) or (hi is not None and v > hi):
+                        return T.FALSE
+                    if lo is not None and lo == hi == v:
+                        return T.TRUE
+            elif _is_int_const(b) and not _is_int_const(a):
+                lo, hi = bounds_of(a, fr.facts)
+                v = b[1]
+                if T.is_op(c, 'LT'):       # a < v
+                    if hi is not None and hi < v:
+                        return T.TRUE
+                    if lo is not None and lo >= v:
+                        return T.FALSE
+                else:
+                    if (lo is not None and v < lo) or (hi is not None and v > hi):
+                        return T.FALSE
+                    if lo is not None and lo == hi == v:
+                        return T.TRUE
+        return c
+
     # ------------------------------------------------------------------ expressions
     def expr(self, e, fr):
         m = getattr(self, 'ex_' + type(e).__name__, None)
@@ -695,7 +772,7 @@ class Evaluator:
         return T.dct(pairs)
 
     def ex_IfExp(self, e, fr):
-        c = T.truth(self.expr(e.test, fr))
+        c = self.decide(T.truth(self.expr(e.test, fr)), fr)
         if c == T.TRUE:
             return self.expr(e.body, fr)
         if c == T.FALSE:
@@ -714,7 +791,7 @@ class Evaluator:
         acc = self.expr(vals[0], fr)
         f0 = fr.facts
         for nxt in vals[1:]:
-            c = T.truth(acc)
+            c = self.decide(T.truth(acc), fr)
             if isinstance(e.op, ast.And):
                 if c == T.FALSE:
                     break
@@ -1099,6 +1176,29 @@ class Evaluator:
                 kwargs[kw.arg] = self.expr(kw.value, fr)
         return args, kwargs
 
+    def _lift(self, args, kwargs, cont):
+        """If an argument is a Phi with RAISE leaves, distribute the call over it (the call happens only
+        on the non-raising alternative)."""
+        for i, a in enumerate(args):
+            if T.tag(a) == 'phi' and _has_raise(a):
+                def f(x, i=i):
+                    if T.tag(x) == 'raise':
+                        return x
+                    a2 = list(args)
+                    a2[i] = x
+                    return cont(a2, kwargs)
+                return _map_leaves(_raise_split(a), f)
+        for k, a in kwargs.items():
+            if T.tag(a) == 'phi' and _has_raise(a):
+                def g(x, k=k):
+                    if T.tag(x) == 'raise':
+                        return x
+                    k2 = dict(kwargs)
+                    k2[k] = x
+                    return cont(args, k2)
+                return _map_leaves(_raise_split(a), g)
+        return None
+
     def _call_on(self, recv, name, e, fr):
         if T.tag(recv) == 'phi':
             # distribute over receiver alternatives
@@ -1116,12 +1216,21 @@ class Evaluator:
         if T.tag(target) in ('bound', 'func', 'cls', 'ext'):
             return self.apply(target, args, kwargs, fr, e)
         # method of a builtin-typed value
+        for a in list(args) + list(kwargs.values()):
+            if T.tag(a) == 'raise':
+                return a
+        lifted = self._lift(args, kwargs, lambda a2, k2: X.method_call(self, recv, name, a2, k2, fr, e))
+        if lifted is not None:
+            return lifted
         return X.method_call(self, recv, name, args, kwargs, fr, e)
 
     def apply(self, callee, args, kwargs, fr, node=None):
         for a in list(args) + list(kwargs.values()):
             if T.tag(a) == 'raise':
                 return a
+        lifted = self._lift(args, kwargs, lambda a2, k2: self.apply(callee, a2, k2, fr, node))
+        if lifted is not None:
+            return lifted
         k = T.tag(callee)
         if any(isinstance(a, tuple) and a and a[0] == 'star' for a in args):
             return X.star_call(self, callee, args, kwargs, fr, node)
@@ -1158,6 +1267,40 @@ class Evaluator:
 # ----------------------------------------------------------------------------
 # helpers on outcome terms
 # ----------------------------------------------------------------------------
+
+def _is_int_const(t):
+    return T.is_const(t) and isinstance(t[1], int) and not isinstance(t[1], bool)
+
+
+def bounds_of(t, facts):
+    """Inclusive integer bounds (lo, hi) for term t implied by comparison facts with constants."""
+    lo = hi = None
+    for f in facts:
+        neg = False
+        g = f
+        if T.is_op(g, 'NOT'):
+            neg = True
+            g = g[2]
+        if T.is_op(g, 'LT'):
+            a, b = g[2], g[3]
+            if a == t and _is_int_const(b):
+                if not neg:      # t < c
+                    hi = b[1] - 1 if hi is None else min(hi, b[1] - 1)
+                else:            # t >= c
+                    lo = b[1] if lo is None else max(lo, b[1])
+            elif b == t and _is_int_const(a):
+                if not neg:      # c < t
+                    lo = a[1] + 1 if lo is None else max(lo, a[1] + 1)
+                else:            # t <= c
+                    hi = a[1] if hi is None else min(hi, a[1])
+        elif T.is_op(g, 'EQ') and not neg:
+            a, b = g[2], g[3]
+            if a == t and _is_int_const(b):
+                lo = hi = b[1]
+            elif b == t and _is_int_const(a):
+                lo = hi = a[1]
+    return lo, hi
+
 
 def _has_fall(t):
     if t is FALL:
@@ -1229,6 +1372,8 @@ def _may_raise_implicitly(body):
 def _map_leaves(t, f):
     if T.tag(t) == 'phi' and t is not FALL:
         return T.phi(t[1], _map_leaves(t[2], f), _map_leaves(t[3], f))
+    if T.tag(t) == 'leaf':
+        return f(t[1])
     return f(t)
 
 
@@ -1238,6 +1383,16 @@ def _replace_fall(t, rest):
 
 def _strip_fall(t, default):
     return _replace_fall(t, default)
+
+
+def _raise_split(v):
+    """Keep only the Phi structure that separates RAISE leaves from values (sub-trees without RAISE
+    stay whole, so _map_leaves sees them as single leaves)."""
+    if T.tag(v) == 'phi' and _has_raise(v):
+        return ('phi', v[1], _raise_split(v[2]), _raise_split(v[3]))
+    if T.tag(v) == 'phi':
+        return ('leaf', v)
+    return v
 
 
 def _strip_raise(v):
@@ -1260,6 +1415,18 @@ def _merge_env(c, e1, e2):
             out[k] = T.phi(c, e1[k], T.opaque('unbound %s' % k))
         else:
             out[k] = T.phi(c, T.opaque('unbound %s' % k), e2[k])
+    return out
+
+
+def _merge_heap(c, h1, h2):
+    out = {}
+    for k in set(h1) | set(h2):
+        if k in h1 and k in h2:
+            d1, p1 = h1[k]
+            d2, p2 = h2[k]
+            out[k] = (d1 if d1 == d2 else T.phi(c, d1, d2), p1 if p1 == p2 else T.phi(c, p1, p2))
+        else:
+            out[k] = h1.get(k) or h2.get(k)
     return out
 
 
